@@ -637,7 +637,6 @@ func (m *Model) expect() []ExpFile {
 				return fate[s] != "drop"
 			}
 			var body strings.Builder
-			used := map[*MImport]bool{}
 			usedPath := map[string]bool{} // by the transplanted signature of an override-signature
 			hasLinkname, hasEmbed := false, false
 			for _, d := range f.Decls {
@@ -653,9 +652,6 @@ func (m *Model) expect() []ExpFile {
 							continue
 						}
 						ef.Survivors++
-						for _, u := range s.Uses {
-							used[u.Imp] = true
-						}
 						switch {
 						case s.Kind == "func" || s.Kind == "method":
 							name, recv, sig, sigUses := s.Ent.Name, s.Recv, s.Sig, s.sigUses()
@@ -667,17 +663,6 @@ func (m *Model) expect() []ExpFile {
 								o := overKeys[s.Ent.key()]
 								recv, sig, sigUses = o.Recv, o.Sig, o.sigUses()
 								ef.Touched, ef.Transplant = true, true
-								for _, u := range s.Uses {
-									if u.Where == "sig" {
-										delete(used, u.Imp)
-									}
-								}
-								// re-add what the body and other entities use below
-								for _, u := range s.Uses {
-									if u.Where != "sig" {
-										used[u.Imp] = true
-									}
-								}
 								for _, u := range sigUses {
 									usedPath[u.Imp.Path] = true
 								}
@@ -721,10 +706,17 @@ func (m *Model) expect() []ExpFile {
 					body.WriteString(")\n\n")
 				}
 			}
-			// a use by a sig that was replaced does not count; recompute precisely
-			used = map[*MImport]bool{}
+			// which imports are still referenced: a use by a signature that was replaced does
+			// not count; the call of a single-call spec stays while any of its names stays
+			used := map[*MImport]bool{}
 			for _, s := range f.sides() {
-				if !alive(s) {
+				live := alive(s)
+				if s.spec.Call {
+					for _, x := range s.spec.Sides {
+						live = live || alive(x)
+					}
+				}
+				if !live {
 					continue
 				}
 				for _, u := range s.Uses {
